@@ -558,8 +558,25 @@ def lower_expr(R):
     node = a.AssignmentExpression(ag.E("l", I), ag.E("r", I))
     v = lw.run(node)
     ev = _events(lw)
-    R.check("LOWER.AssignmentExpression", LOW + ".v_AssignmentExpression", ev == [("e", "r"), ("store", "l", "r"), ("exit",)] and getattr(v, "tag", None) == "l",
-            detail=f"emitted {ev}")
+    R.check("LOWER.AssignmentExpression", LOW + ".v_AssignmentExpression", ev == [("e", "r"), ("store", "l", "r"), ("exit",)], detail=f"emitted {ev}")
+    # the VALUE of an assignment expression is the assigned value (`b = c = a;`, `if (a = 3)`): what the handler returns must be a value that
+    # exists at run time and equals the right-hand side -- not the store, whose reference is never bound
+    R.check("LOWER.AssignmentExpression.value", LOW + ".v_AssignmentExpression", getattr(v, "tag", None) == "r",
+            detail=f"an assignment used as a value yields {getattr(v, 'tag', v)!r}; the assigned value is 'r'",
+            replay=script("""
+                import io, contextlib
+                from nsl import Compiler, LinearIR, VM
+                src = 'export function f(int a) -> int { int b; int c; b = c = a; return (b + c); }'
+                with contextlib.redirect_stdout(io.StringIO()):
+                    r = Compiler.Compiler().Compile(src)
+                l = LinearIR.Linker(); l.AddModule(r.IRModule)
+                try:
+                    got = VM.VirtualMachine(l.Link()).Invoke('f', a=4)
+                except BaseException as e:
+                    got = 'VM raised %s: %s' % (type(e).__name__, e)
+                print(src, 'f(4) =', got, 'expected 8')
+                if got != 8: print('REPLAY-CONFIRMED')
+                """))
     # names: scope of the declaration; load / store
     for name, scope in (("g", "GLOBAL"), ("p0", "FUNCTION_ARGUMENT"), ("x", "FUNCTION_LOCAL")):
         lw = Lowering(globals_=["g"], locals_=["x"])
